@@ -289,3 +289,66 @@ theorem scalar_conforms (O : Oracle) (L : OracleLaws O) (k : ScalarKind)
     exact ⟨.str s lit, by simp [scalarNode, encodeScalar, hl], rfl⟩
 
 end J5V.Codec
+
+namespace J5V.Codec
+open J5V.Go J5V.Json
+
+/-! ## an oracle with the documented timestamp shape (non-vacuity of `OracleLaws ∧ OracleWire`) -/
+
+def wireTimePrefix : Bytes := ascii "0000-00-00T00:00:00."
+
+/-- like `toyOracle`, but timestamps are written in RFC 3339 shape: a fixed date-time followed by
+a fraction that carries the value -/
+def wireOracle : Oracle :=
+  { toyOracle with
+    fmtTime := fun s n => wireTimePrefix ++ toyOracle.fmtTime s n ++ [0x5A]
+    parseTime := fun t => toyOracle.parseTime ((t.drop 20).dropLast) }
+
+theorem wireOracle_fmt_parse (s n : Int) :
+    ((wireOracle.fmtTime s n).drop 20).dropLast = toyOracle.fmtTime s n := by
+  show (((wireTimePrefix ++ toyOracle.fmtTime s n ++ [0x5A]).drop 20).dropLast) = _
+  have h20 : wireTimePrefix.length = 20 := by decide
+  rw [List.append_assoc, List.drop_append_of_le_length (by omega), ← h20, List.drop_length,
+    List.nil_append, List.dropLast_concat]
+
+theorem wireOracle_laws : OracleLaws wireOracle where
+  f64 := toyOracle_laws.f64
+  f32 := toyOracle_laws.f32
+  time s n h := by
+    show toyOracle.parseTime (((wireOracle.fmtTime s n).drop 20).dropLast) = some (s, n)
+    rw [wireOracle_fmt_parse]; exact toyOracle_laws.time s n h
+  dec := toyOracle_laws.dec
+  timeUtf8 s n h := by
+    show isValidUtf8 (wireTimePrefix ++ toyOracle.fmtTime s n ++ [0x5A]) = true
+    apply isValidUtf8_ascii
+    intro c hc
+    simp only [List.mem_append, List.mem_singleton] at hc
+    rcases hc with (hc | hc) | hc
+    · revert c; decide
+    · exact fmtNat_ascii _ c hc
+    · subst hc; decide
+
+theorem wireOracle_wire : OracleWire wireOracle where
+  time s n _ := by
+    show Wire.isRfc3339Utc (wireTimePrefix ++ toyOracle.fmtTime s n ++ [0x5A]) = true
+    have hd : toyOracle.fmtTime s n = digitsSpec ((s - tsMin).toNat * 1000000000 + n.toNat) := fmtNat_eq _
+    obtain ⟨d0, dt, hdd, hd0⟩ := digitsSpec_head ((s - tsMin).toNat * 1000000000 + n.toNat)
+    have hall := digitsSpec_all_digits ((s - tsMin).toNat * 1000000000 + n.toNat)
+    rw [hd, hdd] at *
+    have hallt : ∀ c ∈ dt, isDigit c = true := fun c hc => hall c (List.mem_cons_of_mem _ hc)
+    simp only [Wire.isRfc3339Utc, wireTimePrefix, ascii]
+    -- the fixed part is evaluated; the fraction is `d0 :: dt ++ "Z"`
+    simp [Wire.isDateShape, Wire.isDigitB, List.dropLast_concat, hd0, isDigit] at hd0 hallt ⊢
+    have hdl : (d0 :: (dt ++ [0x5A])).dropLast = d0 :: dt := by
+      rw [← List.cons_append, List.dropLast_concat]
+    have hgl : (d0 :: (dt ++ [0x5A])).getLast? = some 0x5A := by
+      rw [← List.cons_append, List.getLast?_concat]
+    refine ⟨?_, ?_⟩
+    · intro x hx
+      rw [hdl] at hx
+      rcases List.mem_cons.mp hx with rfl | hx
+      · exact hd0
+      · exact hallt x hx
+    · exact hgl
+
+end J5V.Codec
